@@ -105,6 +105,23 @@ Theorem c19_client_reports_only_proven : forall k h c own vals o c' ok,
 Proof. exact cop_step_inv. Qed.
 Print Assumptions c19_client_reports_only_proven.
 
+(* ClientPeerIDAuth.AuthenticatedDo without a stored token (the runHandshake loop,
+   at most 5 round trips): for every script of responses and every sequence of
+   random draws, an id is returned only if some response carried a signature
+   that verifies under that id's key over a challenge drawn in this call, the
+   client's public key and the hostname; and the monitor accepts the model. *)
+Theorem c19_authenticated_do_reports_only_proven : forall k h resps fresh p qs,
+  auth_do_i k h resps fresh = Some (Some p, qs) ->
+  proved k h (map atom fresh) (resp_values resps) p.
+Proof. exact auth_do_proved_l. Qed.
+Print Assumptions c19_authenticated_do_reports_only_proven.
+
+Theorem c19_monitor_accepts_model_authenticated_do : forall k h resps fresh pid qs,
+  auth_do_i k h resps fresh = Some (pid, qs) ->
+  monitor5 (mkC5 k h fresh resps (z_of_on pid) qs) = [].
+Proof. exact monitor5_model_l. Qed.
+Print Assumptions c19_monitor_accepts_model_authenticated_do.
+
 (* ==== the adversary closure ========================================================= *)
 (* For every set of honest servers with secret, pairwise different HMAC secrets,
    every adversary that starts with no term made with a secret, and every trace
@@ -246,6 +263,19 @@ Example model_client_reports_after_proof :
   | None => False
   end.
 Proof. vm_compute. reflexivity. Qed.
+
+Example model_authenticated_do_accepts_honest_server :
+  match auth_do_i 3 7 [mkResp [(str "K"%string, (60, Some (TPub 1))); (str "G"%string, (61, Some ex_srv_sig))]
+                              (str "libp2p-PeerID public-key=""K"", sig=""G"""%string) [];
+                       mkResp [] [] []] [300; 301; 302] with
+  | Some (Some 1, _) => True
+  | _ => False
+  end.
+Proof. vm_compute. exact I. Qed.
+
+Example authenticated_do_monitor_rejects_unproven :
+  monitor5 (mkC5 3 7 [300; 301] [mkResp [] [] []] 1 []) <> [].
+Proof. vm_compute. discriminate. Qed.
 
 Example client_monitor_rejects_unproven_report :
   monitor_client 3 7 [] [] 0 [mkCS 2 300 [] [] [] true 5 1 true false []] <> [].
